@@ -443,7 +443,7 @@ def witness_replay(ctx):
     """self-loop at x with additional start/end x: flow 1 solvable with one walk; flow 1/4 (float) is what the
     faithful model proves infeasible (C04_scale_invariance_refuted)"""
     import flowpaths as fp
-    for f, expect in ((1.0, True), (0.25, False)):
+    for f, expect in ((1.0, True), (0.25, e1cyc.SCALE_FREE_CAP)):   # with the scale-free cap the model says feasible
         G = nx.DiGraph(); G.add_edge("x", "x", flow=f)
         args = dict(G=G, flow_attr="flow", k=1, weight_type=float, additional_starts=["x"], additional_ends=["x"],
                     optimization_options={"optimize_with_safe_sequences": False}, solver_options={"threads": THREADS})
@@ -452,7 +452,7 @@ def witness_replay(ctx):
         if m.is_solved() != expect:
             ctx.report(f"witness of C04_scale_invariance_refuted does not replay: loop flow {f} solved={m.is_solved()}, model says {expect}",
                        {"kind": "witness", "flow": f}, concrete=False)
-        elif not expect:
+        elif not m.is_solved():
             ctx.report("kFlowDecompCycles: self-loop with flow 1/4 (float weights) is infeasible although it is the walk x x with weight 1/4",
                        {"kind": "witness", "flow": f, "status": m.solver.get_model_status()}, key=KEY_CAP)
 
